@@ -41,6 +41,7 @@ let () =
       Hashtbl.replace insts (ai a 1) (x, (optb a 5 false, optb a 6 false)));
   register "gb.newsame" (fun a -> (Hashtbl.find Util.ops "gb.newloop") a);
   register "gb.frames" (fun a -> for _ = 1 to ai a 2 do put (ai a 1) (ok (sys_run_frame (get (ai a 1)))) done);
+  register "gb.framesc" (fun a -> for _ = 1 to ai a 2 do put (ai a 1) (ok (sys_run_frame (get (ai a 1)))) done);
   register "gb.cyc" (fun a -> for _ = 1 to ai a 2 do put (ai a 1) (ok (sys_cycle (get (ai a 1)))) done);
   register "gb.obs" (fun a -> emit (obs (get (ai a 1))));
   register "gb.pix" (fun a -> let (_, s) = get (ai a 1) in emit (Printf.sprintf "pix %d" (R_sys.frame_digest s.s_frame)));
